@@ -650,7 +650,10 @@ def check_cylindrical(ctx):
     # periodic branch condition and the spanning signal handling
     padg = canon_guards(si, pads[0], expand=lambda t, at: fv.expand(t, pads[0], allow_mutated=True, stop=("grid", "mask"))) if pads else None
     okc = padg in ({("grid.periodic[1]", True)}, {("mask.grid.periodic[1]", True)})
-    ctx.decide(okc, "WINDOW", site + ":branch", (fi, pads[0]) if pads else fi, "padding is used exactly for a periodic z axis", "the periodic treatment is not selected by grid.periodic[1]")
+    if pads:
+        ctx.decide(okc, "WINDOW", site + ":branch", (fi, pads[0]), "padding is used exactly for a periodic z axis", "the periodic treatment is not selected by grid.periodic[1]")
+    else:
+        ctx.undecided("WINDOW", site + ":branch", fi, "periodic padding (np.pad … mode='wrap') not found")
     # on-axis selection and volumes in the single-grid helper
     h = m.func(CYL1)
     hv = view(m, h)
